@@ -175,6 +175,12 @@ def run(ctx: Ctx) -> None:
                 sd, si = build.scoped(scens[sn]["desc"], scens[sn]["inputs"], "sc")
                 for st in storages[:2] if quick else storages:
                     traces.append(run_and_reload(sd, si, {n: "list" for n, _ in si}, st, not quick, root))
+        # inputs that are instances of a class defined in the run program's __main__
+        for sn in ("zip", "partial"):
+            if sn in scens:
+                for st in storages[:2]:
+                    traces.append(run_and_reload(scens[sn]["desc"], scens[sn]["inputs"],
+                                                 {n: "userclass" for n, _ in scens[sn]["inputs"]}, st, not quick, root))
         # functions whose result is None: a stored None is a value, not a missing element
         import copy
         for sn in ("zip", "partial", "chain"):
